@@ -2630,8 +2630,7 @@ static iwrc _jbl_target_apply_patch(struct jbl_node *target, const struct jbl_pa
       if (!value) {
         return JBL_ERROR_PATCH_NOVALUE;
       }
-      memmove(target, value, sizeof(*value));
-      _jbl_reparent_children(target);
+      _jbl_copy_node_data(target, value); // `target` keeps its own name and sibling links: it may be a member of a larger tree
     }
   } else { // Not a root
     if ((op == JBP_REMOVE) || (op == JBP_REPLACE)) {
@@ -3280,8 +3279,7 @@ iwrc jbn_merge_patch_from_json(struct jbl_node *root, const char *patchjson, str
   res = _jbl_merge_patch_node(root, patch, pool, &rc);
   RCGO(rc, finish);
   if (res != root) {
-    memcpy(root, res, sizeof(*root)); // -V575
-    _jbl_reparent_children(root);
+    _jbl_copy_node_data(root, res); // `root` keeps its own name and sibling links: it may be a member of a larger tree
   }
 
 finish:
